@@ -2,6 +2,10 @@
 """regenerates MANIFEST.json from the table below (kept valid at all times)"""
 import json
 CLAIMED = {
+ "C14": ("arrays: hash-ordered index iteration is sorted before it can be observed; dense fast paths guarded by is_array (and extensibility for writes)",
+         "who-consumes + dominance rules over MIR call sites of the index iterators and dense accessors", "§5 C14"),
+ "C20": ("determinism/isolation: no script value reachable from static or thread-local state; seed/address-ordered hash iteration never reaches observable order; realm swap paired",
+         "type reachability over statics + hasher/key classification of every hash-container iteration site from monomorphic MIR types", "§5 C20"),
  "C11": ("strings: equality impls compare lengths before zipping, UTF-8 bytes meet Latin-1 payloads only for ASCII, hash arms agree, static table literals ASCII",
          "dominance/provenance rules over MIR of boa_string incl. promoted constant bodies", "§5 C11"),
  "C04": ("binding placement: the three scope visitors agree on scope-bearing nodes, eval/with force escapes, const cache guarded by in_with, aliased operand registers not live across another operand's code",
